@@ -158,7 +158,13 @@ func (p *Parser) parseHeader(data []byte) (header *parser.PacketHeader, buf []by
 
 		for ; end < len(data); end++ {
 			c := data[end]
-			if c == '"' && data[end-1] != '\\' {
+			// A quote ends the string unless it is escaped, i.e. preceded by an odd number of backslashes
+			// (an even run is made of escaped backslashes, as in an event name ending with a backslash).
+			backslashes := 0
+			for k := end - 1; k > start && data[k] == '\\'; k-- {
+				backslashes++
+			}
+			if c == '"' && backslashes%2 == 0 {
 				b := data[start : end+1]
 
 				tmp = make([]byte, len(b)+2)
